@@ -105,6 +105,27 @@ pub struct Eta {
     e: i32,
 }
 
+/// names that agree up to an underscore / a dollar sign
+#[derive(TS)]
+#[ts(export_to = "shared.ts")]
+#[allow(non_camel_case_types)]
+pub struct Al_a {
+    a: i32,
+}
+
+#[derive(TS)]
+#[ts(export_to = "shared.ts")]
+#[allow(non_camel_case_types)]
+pub struct Al_b {
+    b: Leaf,
+}
+
+#[derive(TS)]
+#[ts(export_to = "shared.ts", rename = "Al$c")]
+pub struct AlDollar {
+    c: i32,
+}
+
 /// the same shared file, spelled differently in the attribute
 #[derive(TS)]
 #[ts(export_to = "sub/../shared.ts")]
@@ -291,6 +312,9 @@ pub fn entries() -> Vec<Entry> {
         entry!("LeafA", LeafA),
         entry!("LeafB", LeafB),
         entry!("LeafC", LeafC),
+        entry!("Al_a", Al_a),
+        entry!("Al_b", Al_b),
+        entry!("AlDollar", AlDollar),
         entry!("AlD", AlD),
         entry!("AlA", AlA),
         entry!("AlB", AlB),
